@@ -23,6 +23,9 @@ GLOBAL_ASSUMPTIONS = [
 ]
 
 
+SCENARIO_PROPS = {"C01", "C02", "C03", "C04", "C05", "C07", "C08", "C09", "C11", "C12", "C13", "C14", "C15", "C16"}
+
+
 def relevant(o, prop):
     return o["prop"] in (prop, None, "safety")
 
@@ -119,10 +122,13 @@ def finish(prop, tier, seed, tasks, results, wall, known):
         t = task_by_name.get(o.get("task"))
         rep = None
         script = getattr(t, "replay_script", None) if t else None
+        if script is None and prop in SCENARIO_PROPS:
+            script = "scenario.py"  # native scenario search with property oracles, seeded by the counter-model
         payload = None
-        if script and o.get("model"):
+        if script:
             try:
-                payload = {"obligation": name, "model": o["model"], "detail": o.get("detail")}
+                payload = {"obligation": name, "model": o.get("model"), "detail": o.get("detail"), "property": prop,
+                           "budget_s": 20, "seed": seed}
                 rep = replay_native(script, payload)
             except Exception as e:  # pragma: no cover
                 rep = {"reproduced": None, "error": str(e)}
